@@ -3,6 +3,6 @@ CONSTANTS
   MaxChunks = 4
   Kinds = {"import", "vargroup", "func", "method", "stmt", "block", "flit", "flitres"}
   Variants = {"plain"}
-  FuncExprIsDecl = TRUE
+  FuncExprIsDecl = FALSE
 INVARIANTS WantIsStatement CodeKeepsBytes SplitSane CodeMeetsStatement Export
 PROPERTY Terminates
